@@ -5,6 +5,7 @@
 From PV Require Import Proofs.Defs Proofs.C15.
 From PV Require Import Gen.GenRoutes Spec.Pipeline Gen.GenExc Spec.ExcSpec Proofs.C15x.
 From PV Require Import Gen.GenConsts Model.Parse Proofs.C15p.
+From PV Require Import Model.Json Gen.GenSchemas Model.Decode Proofs.C15s.
 
 (* no write request, in any state (reachable or not), at any microversion, is answered with a 5xx:
    every failure of the object layer is converted into a 4xx *)
@@ -150,3 +151,65 @@ Theorem C15_int_of_ascii : forall ds, are_digits ds -> ds <> [] -> Z.of_nat (len
   int_of (ascii_digits ds) = Ret (dec_value ds 0).
 Proof. exact int_of_ascii_digits. Qed.
 Print Assumptions C15_int_of_ascii.
+
+(* ---------------------------------------------------------------------------------------------------------------
+   Request bodies.  `validate` (Model/Json.v) is python-jsonschema on the schemas REGENERATED from
+   placement/schemas/*.py on every build (Gen/GenSchemas.v); `to_req_*` (Model/Decode.v) reads from a body what the
+   handlers read; tokenizers (external names -> the model's tokens) are arbitrary.  A body that the route's schema
+   accepts at ANY minor version decodes to a request satisfying req_wf - the well-formedness that the theorems of
+   C01 C04 C08 C09 C10 C11 C12 C15 assume of parsed requests is hereby derived from the code's schemas, and weakening
+   a schema (a bound, a required member, minProperties, a pattern ...) breaks this theorem.
+   Hypotheses, all visible: json_wf = object keys pairwise distinct (json.loads); json_finite = no nan/inf number
+   (schema-valid for allocation_ratio - C15_nonfinite_ratio_schema_valid below - and rejected by the handler since
+   fix df933f2); the *_inj hypotheses say that the tokenizers are injective on the identifiers that occur in the
+   document (they exclude two spellings of one uuid in one document). *)
+Theorem C15_valid_body_wf :
+  forall tok_rp tok_cons tok_agg tok_rc tok_trait tok_name tok_proj tok_user tok_type : Parse.str -> Z,
+  (forall (v u : Z) (j : json), json_wf j -> json_finite j ->
+     validate S_inventory__PUT_INVENTORY_SCHEMA j = true -> tok_inj_on tok_rc (okeys (member f_inventories j)) ->
+     exists r : req, to_req_inv_set tok_rc v u j = Some r /\ req_wf r = true) /\
+  (forall (v u : Z) (j : json), json_finite j -> validate S_inventory__POST_INVENTORY_SCHEMA j = true ->
+     exists r : req, to_req_inv_post tok_rc v u j = Some r /\ req_wf r = true) /\
+  (forall (v u rc : Z) (j : json), json_finite j -> validate S_inventory__BASE_INVENTORY_SCHEMA j = true ->
+     exists r : req, to_req_inv_put v u rc j = Some r /\ req_wf r = true) /\
+  (forall (v u : Z) (j : json), validate S_trait__SET_TRAITS_FOR_RP_SCHEMA j = true ->
+     exists (g : Z) (ts : list Z),
+       to_req_traits_set tok_trait v u j = Some (TraitsSet v u g ts) /\ req_wf (TraitsSet v u g ts) = true) /\
+  (forall (v u g0 : Z) (j : json), validate (schema_of_aggs v) j = true -> tok_inj_on tok_agg (agg_strs v j) ->
+     exists (g : Z) (l : list Z), to_req_aggs_set tok_agg v u g0 j = Some (AggsSet v u g l) /\ nodupb l = true) /\
+  (forall (v c : Z) (j : json), json_wf j -> validate (schema_of_put_alloc v) j = true -> alloc_inj tok_rp tok_rc v j ->
+     exists r : req, to_req_alloc_put tok_rp tok_rc tok_proj tok_user tok_type v c j = Some r /\ req_wf r = true) /\
+  (forall (v : Z) (j : json), json_wf j -> validate (schema_of_post_alloc v) j = true -> post_inj tok_rp tok_cons tok_rc v j ->
+     exists r : req, to_req_alloc_post tok_rp tok_cons tok_rc tok_proj tok_user tok_type v j = Some r /\ req_wf r = true) /\
+  (forall (v : Z) (j : json), json_wf j -> json_finite j -> validate (schema_of_reshape v) j = true ->
+     reshape_inj tok_rp tok_cons tok_rc v j ->
+     exists r : req, to_req_reshape tok_rp tok_cons tok_rc tok_proj tok_user tok_type v j = Some r /\ req_wf r = true) /\
+  (forall (v : Z) (j : json), validate (schema_of_rp_create v) j = true -> In f_uuid (okeys j) ->
+     exists (u n : Z) (p : option Z),
+       to_req_rp_create tok_rp tok_name v j = Some (RpCreate v u n p) /\ (v < 14 -> p = None)) /\
+  (forall (v u : Z) (j : json), validate (schema_of_rp_update v) j = true ->
+     exists (n : Z) (p : option (option Z)),
+       to_req_rp_update tok_rp tok_name v u j = Some (RpUpdate v u n p) /\ (v < 14 -> p = None)) /\
+  (forall (v old : Z) (j : json),
+     validate S_resource_class__POST_RC_SCHEMA_V1_2 j = true \/ validate S_resource_class__PUT_RC_SCHEMA_V1_2 j = true ->
+     exists n : Z, to_req_rc_create tok_rc v j = Some (RcCreate v n) /\
+                   to_req_rc_rename tok_rc v old j = Some (RcRename v old n)).
+Proof. exact C15s_valid_body_wf. Qed.
+Print Assumptions C15_valid_body_wf.
+
+(* the schema of PUT /resource_providers/{uuid}/traits admits repeated names (no uniqueItems); the handler acts on the
+   de-duplicated list, which is what the decoder returns *)
+Theorem C15_traits_schema_admits_repeats : forall tok_trait : Parse.str -> Z,
+  exists j : json, json_wf j /\ json_finite j /\ validate S_trait__SET_TRAITS_FOR_RP_SCHEMA j = true /\
+    tok_inj_on tok_trait (jstrs (member f_traits j)) /\
+    nodupb (map tok_trait (jstrs (member f_traits j))) = false /\
+    dec_traits_set tok_trait j = Some (0, [tok_trait [65]]).
+Proof. exact C15s_traits_set_refuted. Qed.
+Print Assumptions C15_traits_schema_admits_repeats.
+
+(* found by the proof attempt of C15_valid_body_wf: allocation_ratio = NaN / -Infinity is accepted by the schema
+   (only a maximum, and nan > max is false); on the service it was a 500 until fix df933f2 *)
+Theorem C15_nonfinite_ratio_schema_valid : forall tok_rc : Parse.str -> Z,
+  exists j : json, json_wf j /\ validate S_inventory__POST_INVENTORY_SCHEMA j = true /\ dec_inv_post tok_rc j = None.
+Proof. exact C15s_inv_post_nan_refuted. Qed.
+Print Assumptions C15_nonfinite_ratio_schema_valid.
